@@ -123,12 +123,12 @@ def build_cff(tmp):
     return out
 
 
-def build_l2(tmp, race, tier, seed, name="l2", genmode="base", kind="mixed", corpus=None):
+def build_l2(tmp, race, tier, seed, name="l2", genmode="base", kind="mixed", corpus=None, plain=False):
     """Generate a corpus, run the cff tool built from /repo on it, compile the harness."""
     cff = build_cff(tmp)
     mod = copy_module(tmp, name)
     npk, per, maxt = corpus or CORPUS[tier]
-    r = sh(["go", "run", "./cmd/progen", "-out", mod, "-seed", str(seed), "-pkgs", str(npk), "-per", str(per), "-maxtasks", str(maxt), "-kind", kind], cwd=mod)
+    r = sh(["go", "run", "./cmd/progen", "-out", mod, "-seed", str(seed), "-pkgs", str(npk), "-per", str(per), "-maxtasks", str(maxt), "-kind", kind] + (["-plainnames"] if plain else []), cwd=mod)
     if r.returncode != 0:
         raise Infra("progen failed:\n" + r.stdout[-3000:])
     pkgs = json.load(open(os.path.join(mod, "corpus", "packages.json")))
@@ -169,7 +169,7 @@ def build_l2(tmp, race, tier, seed, name="l2", genmode="base", kind="mixed", cor
     r = sh(cmd, cwd=mod)
     if r.returncode != 0:
         raise Infra("BUILD-FAILED (generated code or L2 harness does not compile, genmode=%s):\n%s" % (genmode, r.stdout[-6000:]))
-    nprogs = len(glob.glob(os.path.join(mod, "corpus", "*", "prog_*_x.go")))
+    nprogs = int(open(os.path.join(mod, "corpus", "nprogs")).read())
     return out, mod, nprogs
 
 
@@ -241,8 +241,22 @@ def _check(prop, tier, seed, tmp, t0):
     nprogs = 0
     if "l1" in engines:
         binaries["l1"] = build_l1(tmp, race)
+    name_viol = []
     if "l2" in engines:
-        binaries["l2"], _, nprogs = build_l2(tmp, race, tier, seed)
+        try:
+            binaries["l2"], _, nprogs = build_l2(tmp, race, tier, seed)
+        except Infra as e:
+            if prop != "C15":
+                raise
+            # C15 quantifies over user identifiers named like generated ones. If the corpus
+            # only builds once those names are replaced by neutral ones, the names are the cause.
+            binaries["l2"], _, nprogs = build_l2(tmp, race, tier, seed, name="l2plain", plain=True)
+            os.makedirs(os.path.join(VERIF, "replays"), exist_ok=True)
+            path = os.path.join(VERIF, "replays", "C15_l2_names-break-output_s%d.json" % seed)
+            json.dump(dict(property="C15", engine="l2-compile-names", corpus=dict(seed=seed, tier=tier), detail=str(e)[-4000:],
+                           message="the corpus builds when user variables have neutral names, but not when they are named like identifiers the generated code introduces",
+                           **{"class": "generated-identifier-captures-user-name"}), open(path, "w"), indent=1)
+            name_viol.append(("generated-identifier-captures-user-name", "programs whose variables are called like generated identifiers (sched, emitter, tasks, v1, ...) are accepted by cff but the output does not compile; the same programs with neutral names do: " + str(e)[-500:].replace("\n", " | "), path))
     secs = SECS[tier]
     replaydir = os.path.join(VERIF, "replays")
     os.makedirs(replaydir, exist_ok=True)
@@ -250,6 +264,8 @@ def _check(prop, tier, seed, tmp, t0):
     for i in range(NPROC):
         eng = engines[i % len(engines)]
         pop = prop
+        if eng == "l2" and prop == "C03" and i == 5:
+            pop = "C03scale"
         if eng == "l1":
             pops = L1_POPS[prop]
             pop = pops[(i // len(engines)) % len(pops)]
@@ -294,7 +310,7 @@ def _check(prop, tier, seed, tmp, t0):
             racetxt += open(rp).read()
         crashes.append(dict(proc=i, rc=rc, desc=desc, log=logtxt[-6000:], race=racetxt[-8000:], engine=meta[i]))
     extra = {}
-    extra_viol = []
+    extra_viol = list(name_viol)
     if "l2" in engines:
         extra["programs"] = nprogs
         extra["programs_generated_compiled"] = nprogs
@@ -405,7 +421,7 @@ def finish(prop, tier, seed, t0, sums, crashes, binaries, race, engines, extra_c
         runs_per_hour=int(runs / max(wall, 1e-9) * 3600),
         seeds_per_hour=int(runs / max(wall, 1e-9) * 3600),
         distinct_abstract_states=len(states),
-        abstract_state_measure="multiset of (goroutine kind, hook site, parked?) + clamped channel lengths and loop counters + closed flags, after every step",
+        abstract_state_measure="multiset of (goroutine kind, hook site, parked?) + clamped channel lengths and loop counters + closed flags, after every step; each process's set saturates at 250000, so this is a lower bound",
         fault_kinds_fired=faults,
         reach_probes=probes,
         policies=pols,
@@ -458,12 +474,27 @@ def check_c20(tier, seed, tmp, t0):
     secs = SECS[tier]
     npk, per, maxt = CORPUS[tier]
     base, _, n1 = build_l2(tmp, False, tier, seed, name="base", genmode="base", corpus=(max(2, npk // 2), per, maxt))
-    smap, _, _ = build_l2(tmp, False, tier, seed, name="smap", genmode="source-map", corpus=(max(2, npk // 2), per, maxt))
     mbase, _, n2 = build_l2(tmp, False, tier, seed + 1, name="mbase", genmode="base", kind="modifier", corpus=(max(2, npk // 2), per, maxt))
-    mmod, _, _ = build_l2(tmp, False, tier, seed + 1, name="mmod", genmode="modifier", kind="modifier", corpus=(max(2, npk // 2), per, maxt))
+    replaydir = os.path.join(VERIF, "replays")
+    os.makedirs(replaydir, exist_ok=True)
+    build_viol = []
+    smap = mmod = None
+    for tag, gm, kind, sd in (("smap", "source-map", "mixed", seed), ("mod", "modifier", "modifier", seed + 1)):
+        try:
+            b, _, _ = build_l2(tmp, False, tier, sd, name="m" + tag, genmode=gm, kind=kind, corpus=(max(2, npk // 2), per, maxt))
+            if tag == "smap":
+                smap = b
+            else:
+                mmod = b
+        except Infra as e:
+            # the same corpus builds in base mode (above): the difference is the mode's
+            path = os.path.join(replaydir, "C20_%s_build_s%d.json" % (tag, seed))
+            json.dump(dict(property="C20", engine="l2-differential", pair=tag, seed=seed, tier=tier, message="corpus builds in base mode but not in %s mode" % gm, detail=str(e)[-4000:],
+                           **{"class": "mode-output-does-not-build:" + tag}), open(path, "w"), indent=1)
+            build_viol.append(("mode-output-does-not-build:" + tag, "the corpus is accepted and compiles in base mode, but in -genmode %s cff fails or its output does not compile: %s" % (gm, str(e)[-600:].replace("\n", " | ")), path))
     nruns = 1500 if tier == "quick" else 40000
     jobs = []
-    pairs = [("smap", base, smap, "C20"), ("mod", mbase, mmod, "C20mod")]
+    pairs = [p for p in (("smap", base, smap, "C20"), ("mod", mbase, mmod, "C20mod")) if p[2] is not None]
     per_pair = NPROC // 4
     for tag, a, b, pop in pairs:
         for side, binary in (("a", a), ("b", b)):
@@ -474,7 +505,7 @@ def check_c20(tier, seed, tmp, t0):
                         "-sim.hashlog", os.path.join(tmp, "hash_%s_%s_%d" % (tag, side, i)), "-sim.beginlog", os.path.join(tmp, "begin_%s_%s_%d" % (tag, side, i))]
                 jobs.append((argv, env, os.path.join(tmp, "log_%s_%s_%d" % (tag, side, i))))
     rcs = run_procs(jobs, secs * 6 + 900)
-    infra, viol = [], []
+    infra, viol = [], list(build_viol)
     if any(rcs):
         for (argv, _, lp), rc in zip(jobs, rcs):
             if rc:
@@ -482,8 +513,6 @@ def check_c20(tier, seed, tmp, t0):
     compared, differ_trace = 0, 0
     sums = []
     samples = []
-    replaydir = os.path.join(VERIF, "replays")
-    os.makedirs(replaydir, exist_ok=True)
     for tag, a, b, pop in pairs:
         for i in range(per_pair):
             try:
@@ -516,7 +545,7 @@ def check_c20(tier, seed, tmp, t0):
     extra = dict(programs=n1 + n2, runs_compared_pairwise=compared, pairs_with_different_trace=differ_trace, disagreements_checked=compared,
                  differential="same corpus compiled with cff -genmode base / source-map (trace hash, steps and outcome digest must agree run by run) and, for the modifier-supported subset, base / modifier (outcome digest: results, nil/non-nil, failing task, invocation multiset)",
                  comparison_samples=samples)
-    if compared == 0:
+    if compared == 0 and not build_viol:
         infra.append("nothing was compared")
     return finish("C20", tier, seed, t0, sums, [], {}, False, ["l2"], extra, viol, infra)
 
@@ -536,6 +565,17 @@ def cmd_replay(path):
         if eng == "l2-differential":
             log("differential finding; re-run ./check C20 with VERIF_SEED=%s to reproduce: %s" % (rp.get("seed"), rp.get("message")))
             return check("C20", rp.get("tier", "quick"), int(rp.get("seed", 1)))
+        if eng == "l2-compile-names":
+            c = rp.get("corpus") or {}
+            try:
+                build_l2(tmp, False, c.get("tier", "quick"), int(c.get("seed", 1)))
+                log("NOT-REPRODUCED: the corpus with colliding names builds")
+                return 0
+            except Infra as e:
+                build_l2(tmp, False, c.get("tier", "quick"), int(c.get("seed", 1)), name="l2plain", plain=True)
+                log("REPRODUCED property=C15 class=%s: %s" % (rp["class"], str(e)[-1500:]))
+                log("VIOLATION property=C15 replay=%s" % path)
+                return 1
         if eng == "l2-compile":
             c = rp.get("corpus") or {}
             build_l2(tmp, False, c.get("tier", "quick"), int(c.get("seed", 1)))
